@@ -43,6 +43,8 @@ TRICKY = [
     "while a # c\ndo b # d\n# e\ndone # f\n", "for i in 1 2 # c\ndo :; done\n", "$( # c\nfoo # d\n)\n", "f() # c\n{ :; }\n",
     "declare -a foo=(b c)\n", "local x=1 y\n", "export A=b\n", "readonly r\n", "typeset -i n\n", "nameref n=x\n",
     "echo ${a:h} ${a:t:r} ${a:h2}\n", "echo ${(f)x} ${(@s/:/)y}\n", "echo ${${a}#b} ${\"${a}\"}\n", "echo ${+x} ${%x}\n",
+    # zsh subscript flags with and without an argument (FlagsArithm.X is nil for the latter)
+    "echo ${a[(w)]} next\n", "echo ${a[(r)x]} $b[(i)y] ${a[(e)]}\n",
     "echo ${a[1,2]} ${a:1:2} ${a/b/c} ${a//b} ${!a*} ${!a@} ${a@Q} ${#a} ${!a} ${a:-b} ${a[@]} ${a[1]:-x}\n",
     # all-zero sub-structs (an empty Replace) and other "empty but present" nodes
     "echo ${a/} ${a//} ${a/#} ${a:-} ${a:0:0}\n", "a=() b=('') c=([0]=)\n",
